@@ -33,6 +33,8 @@ struct Driver {
     counts: std::collections::BTreeMap<String, u64>,
     /// replica cut off from the others (partition) during the last part of the prefix
     isolated: Option<usize>,
+    /// every message crafted with faulty keys so far (valid or not)
+    byz_msgs: Vec<SMsg>,
     /// Twins: for every faulty validator two further *real* replicas run with its key (each with its own engine and durable
     /// state, in a world of its own whose log is discarded). Whatever they emit is Byzantine material in the pool.
     twins: Vec<(World, usize)>,
@@ -402,6 +404,7 @@ impl Driver {
         } else if x < 60 {
             if let Some(m) = self.craft_byz() {
                 self.count("byz_crafted");
+                self.byz_msgs.push(m.clone());
                 self.pool.push(m.clone());
                 self.deliver(pos, m).await;
             }
@@ -530,7 +533,7 @@ async fn run_random(trace: &str, report: &str, seed: u64, steps: u64, cfg: &str,
     let (weights, faulty) = config(cfg);
     let mut rep = Report::default();
     let w = World::new(&weights, &faulty, seed).await;
-    let mut d = Driver { w, rng: vcore::rng(seed), pool: vec![], seen_emitted: 0, counts: Default::default(), isolated: None, twins: vec![] };
+    let mut d = Driver { w, rng: vcore::rng(seed), pool: vec![], seen_emitted: 0, counts: Default::default(), isolated: None, twins: vec![], byz_msgs: vec![] };
     // boot every node (view 0 times out immediately)
     for p in d.real() {
         d.boot(p).await;
@@ -558,6 +561,17 @@ async fn run_random(trace: &str, report: &str, seed: u64, steps: u64, cfg: &str,
         d.random_step().await;
     }
     d.isolated = None;
+    if suffix == 2 {
+        // the harsher ending: before the network heals, whatever the faulty validators ever sent (late, duplicated) reaches EVERY correct
+        // replica - a flood for future views, an equivocation or a stale certificate then sits in everybody's caches, not in one replica's
+        let late: Vec<SMsg> = d.byz_msgs.iter().rev().take(40).cloned().collect();
+        for m in late.into_iter().rev() {
+            for p in d.real() {
+                d.deliver(p, m.clone()).await;
+            }
+        }
+        d.count("byz_broadcast_before_good_period");
+    }
     let views: Vec<u64> = d.real().iter().map(|p| d.w.snapshot(*p).view.0).collect();
     let heights_prefix = d.heights();
     let mut progress = json!(null);
@@ -570,6 +584,22 @@ async fn run_random(trace: &str, report: &str, seed: u64, steps: u64, cfg: &str,
         if !ok {
             rep.fail("no_progress", format!("no new block at every correct node within {bound} timer rounds of the good period (heights {heights:?})"),
                 json!({"mode": "random", "seed": seed, "steps": steps, "config": cfg, "suffix": suffix}));
+        } else {
+            // "From any state the system can reach": the state after that block is reachable too. The good period goes on for one block per
+            // validator, so that the leadership passes through every validator - the views led by the (silent) faulty ones must be left by
+            // timeout certificates assembled from what the caches kept of the adversarial prefix.
+            let mut more = 0;
+            for k in 0..n {
+                let (ok, _r, tr, heights) = d.good_period(bound, false).await;
+                if !ok {
+                    rep.fail("no_progress", format!("the good period stalls: block {} after the network healed is not committed by every correct node within {bound} timer rounds ({tr} used; heights {heights:?})", k + 2),
+                        json!({"mode": "random", "seed": seed, "steps": steps, "config": cfg, "suffix": suffix}));
+                    break;
+                }
+                more += 1;
+            }
+            progress["further_blocks"] = json!(more);
+            rep.add("good_period_further_blocks", more);
         }
     }
     rep.evaluations = d.w.log.len() as u64;
@@ -1002,7 +1032,7 @@ async fn run_replay(scn_path: &str, trace: &str, report: &str) {
     let faulty: Vec<usize> = scn["config"]["faulty"].as_array().unwrap().iter().map(|x| x.as_u64().unwrap() as usize).collect();
     let mut rep = Report::default();
     let w = World::new(&weights, &faulty, scn["seed"].as_u64().unwrap_or(1)).await;
-    let mut d = Driver { w, rng: vcore::rng(1), pool: vec![], seen_emitted: 0, counts: Default::default(), isolated: None, twins: vec![] };
+    let mut d = Driver { w, rng: vcore::rng(1), pool: vec![], seen_emitted: 0, counts: Default::default(), isolated: None, twins: vec![], byz_msgs: vec![] };
     for p in d.real() {
         d.boot(p).await;
     }
